@@ -28,6 +28,12 @@
           the children's recorded implementation results for the same query are fed to merged_fuzzy
           (stable sort, take k), and the result is printed raw, in order (falls back to the children's
           models when a child was not asked).
+     O tag common                 declare WordMetadata::common of one interned metadata tag           -> "O"
+     S name d k | q | lq | impl   suggest_correct_spelling(q, k, d, dictionary) (spell/mod.rs); `impl` is the
+                                  implementation's own fuzzy_match result for the same arguments (as in Z):
+        mutable dictionary: the whole composition in the model (C15Suggest.suggest over the model's fuzzy search);
+        FST / merged dictionary: order_suggestions as a function of what fuzzy_match returned (that result is
+          validated by the Z case of the same query)                              -> "S <n>: w1, w2, .." in order
    an entry e is "meta c1 c2 .."; q, lq are code points. *)
 let dbg = Array.length Sys.argv > 1 && Sys.argv.(1) = "debug"
 
@@ -36,10 +42,16 @@ let is_lower (c : n) : bool = match Hashtbl.find_opt utab (int_of_n c) with Some
 let lower (c : n) : n list =
   match Hashtbl.find_opt utab (int_of_n c) with Some (_, l) -> List.map n_of_int l | None -> [c]
 
+let common_tab : (int, bool) Hashtbl.t = Hashtbl.create 64
+let is_common (m : nat) : bool = match Hashtbl.find_opt common_tab (int_of_nat m) with Some b -> b | None -> false
+
 type kind = KM | KF of fst_dict | KX of string list
 let dicts : (string, kind * dict_ops) Hashtbl.t = Hashtbl.create 64
 (* (name) -> (query key, implementation's result) *)
 let last : (string, string * fres list res) Hashtbl.t = Hashtbl.create 64
+(* (name) -> (query key, the MODEL's fuzzy result of a mutable dictionary): the S case that follows a Z case
+   with the same arguments runs `suggest` over the same dict_ops with this call memoised *)
+let last_model : (string, string * fres list res) Hashtbl.t = Hashtbl.create 64
 (* = spec_stream lev (spec_stream_fast_eq) *)
 let stream = spec_stream_fast lev_fast
 
@@ -166,7 +178,9 @@ let () =
                (match kind with
                 | KM ->
                     (* since fix 5a329ea the (distance, word) sort leaves nothing open: raw, in order *)
-                    (match d.d_fuzzy qt lqt dn kn with
+                    let mr = d.d_fuzzy qt lqt dn kn in
+                    Hashtbl.replace last_model name (key, mr);
+                    (match mr with
                      | Panic w -> print_endline ("P " ^ panic_name w)
                      | Ok r -> print_endline (raw_fuzzy r))
                 | KF f ->
@@ -188,6 +202,33 @@ let () =
                     (match (merged_ops (List.map shadow names)).d_fuzzy qt lqt dn kn with
                      | Panic w -> print_endline ("P " ^ panic_name w)
                      | Ok r -> print_endline (raw_fuzzy r)))
+           | _ -> print_endline "?")
+      | 'O', [t] ->
+          (match ints_of_line t with
+           | [tag; c] -> Hashtbl.replace common_tab tag (c <> 0); print_endline "O"
+           | _ -> print_endline "?")
+      | 'S', [hd; q; lq; impl] ->
+          (match words hd with
+           | [name; dd; kk] ->
+               let (kind, d) = get name in
+               let dn = nat_of_int (int_of_string dd) and kn = nat_of_int (int_of_string kk) in
+               let qt = text_of_line q and lqt = text_of_line lq in
+               let show ws = Printf.sprintf "S %d: %s" (List.length ws) (String.concat ", " (List.map cps ws)) in
+               let r = match kind with
+                 | KM ->
+                     let key = dd ^ "/" ^ kk ^ "/" ^ q in
+                     let ops = match Hashtbl.find_opt last_model name with
+                       | Some (key', mr) when key' = key -> { d with d_fuzzy = (fun _ _ _ _ -> mr) }
+                       | _ -> d in
+                     suggest is_common ops qt lqt kn dn
+                 | KF _ | KX _ ->
+                     (match parse_impl impl with
+                      | Some (Ok ir) -> Ok (order_suggestions is_common qt ir)
+                      | Some (Panic w) -> Panic w
+                      | None -> failwith "S: unreadable implementation result") in
+               (match r with
+                | Panic w -> print_endline ("P " ^ panic_name w)
+                | Ok ws -> print_endline (String.trim (show ws)))
            | _ -> print_endline "?")
       | 'W', [name] ->
           let d = snd (get (String.trim name)) in
